@@ -80,6 +80,10 @@ THEOREMS = [
     'CpProofs.C07.C07_dispatch_live',
     'CpProofs.C07.C07_dispatch_partial_status',
     'CpProofs.C07.C07_basic',
+    'CpProofs.C07.sizedRead_ok_or_413',
+    'CpProofs.C07.sizedRead_413_iff',
+    'CpProofs.C07.C07_sizedRead',
+    'CpProofs.C07.C07_hostRule',
     'CpProofs.C07.trailerFinish_fixed_ok_or_400',
     'CpProofs.C07.trailerFinish_raises',
     'CpProofs.C07.C07_trailers_full_false',
@@ -968,10 +972,18 @@ def real_unit(desc):
     proto = _proto_of(desc)
     if kind == 'ranges':
         _, hv, ln = desc
-        # (`_get_ranges` is a private helper: when a refactor renamed it, only the status at the site is compared)
-        raw = _real_class(lambda: httputil._get_ranges(hv, ln)) if hasattr(httputil, '_get_ranges') else '?'
+        # what is compared: the public `get_ranges` result and the status at the site (how the private helper
+        # `_get_ranges` signals an invalid spec - None or ValueError - is not observable and may be refactored)
+        def pub():
+            try:
+                r = httputil.get_ranges(hv, ln)
+            except Exception as e:      # noqa: the class is the observation
+                return 'err:' + _cls_name(e)
+            if r is None:
+                return 'N'
+            return ','.join('%d:%d' % (a, b) for a, b in r) or '-'
         obs = app.call(_req('GET', '/file', [['Range', hv]], proto=proto))
-        return '%s %s' % (raw, _cls_status(obs['status'])), obs
+        return '? %s %s' % (_cls_status(obs['status']), app.guarded(pub)), obs
     if kind == 'qs':
         raw = _real_class(lambda: httputil.parse_query_string(desc[1]))
         obs = app.call(_req('GET', '/plain', qs=desc[1], proto=proto))
@@ -1035,7 +1047,7 @@ def unit_agree(kind, real, model):
     if kind == 'ranges':
         r = real.split(' ')
         m = model.split(' ')
-        return (r[0] == m[0] or r[0] == '?') and (r[1] in ('st:200', 'st:206', 'st:416')) == (m[1] == 'st:200')
+        return (r[1] in ('st:200', 'st:206', 'st:416')) == (m[1] == 'st:200') and r[2:] == m[2:]
     return real == model
 
 
@@ -1158,6 +1170,8 @@ def run(ctx):
         tok.bind_stream(ctx, ctx.budget(1500, 40000))
         tok.trailer_stream(ctx, ctx.budget(400, 10000))
         tok.unq_stream(ctx, ctx.budget(600, 20000))
+        tok.limit_stream(ctx, ctx.budget(300, 6000))
+        tok.host_stream(ctx, ctx.budget(150, 3000))
         tok.dispatch_e2e(ctx, ctx.budget(500, 10000))
         cross_stream(ctx)
         request_stream(ctx, ctx.budget(10000, 400000))
